@@ -8,7 +8,9 @@ import (
 	"encoding/json"
 	"fmt"
 	"go/ast"
+	"go/token"
 	"go/types"
+	"sort"
 	"math/big"
 	"os"
 	"os/exec"
@@ -296,6 +298,119 @@ type overlayTest struct {
 
 // runOverlayTests compiles the tests into /repo's package (overlay) and runs them.
 // Returns per-test verdict: "pass", "fail" (t.Errorf/t.Fatalf), "panic", or "error".
+// instrumentation: failed overflow obligations are replayed on a copy of the source file in which
+// exactly the flagged operation is replaced by a checked (math/big) version that panics with
+// VERIF-OVERFLOW when the machine result differs from the mathematical one.
+var overlayReplace = map[string]string{}
+
+const ovfHelpers = `//go:build verif
+
+package PKG
+
+import (
+	"fmt"
+	"math/big"
+
+	"golang.org/x/exp/constraints"
+)
+
+func verifBig[T constraints.Integer](x T) *big.Int {
+	var zero T
+	if zero-1 > 0 {
+		return new(big.Int).SetUint64(uint64(x))
+	}
+	return big.NewInt(int64(x))
+}
+
+func verifOvf[T constraints.Integer](op string, a, b T) T {
+	var r T
+	m := new(big.Int)
+	switch op {
+	case "+":
+		r = a + b
+		m.Add(verifBig(a), verifBig(b))
+	case "-":
+		r = a - b
+		m.Sub(verifBig(a), verifBig(b))
+	case "*":
+		r = a * b
+		m.Mul(verifBig(a), verifBig(b))
+	}
+	if verifBig(r).Cmp(m) != 0 {
+		panic(fmt.Sprintf("VERIF-OVERFLOW %v %s %v = %v in machine arithmetic, %v exactly", a, op, b, r, m))
+	}
+	return r
+}
+`
+
+// instrumentOverflow rewrites the flagged operations of the failed overflow obligations.
+func instrumentOverflow(w *World, vcs []*VC, dir string) {
+	type edit struct {
+		start, end int
+		text       string
+	}
+	byFile := map[string][]edit{}
+	for _, vc := range vcs {
+		if vc.node == nil {
+			continue
+		}
+		var e edit
+		fset := w.prog.Fset
+		file := fset.Position(vc.node.Pos()).Filename
+		src, err := os.ReadFile(file)
+		if err != nil {
+			continue
+		}
+		off := func(p token.Pos) int { return fset.Position(p).Offset }
+		txt := func(n ast.Node) string { return string(src[off(n.Pos()):off(n.End())]) }
+		switch x := vc.node.(type) {
+		case *ast.BinaryExpr:
+			if x.Op != token.ADD && x.Op != token.SUB && x.Op != token.MUL {
+				continue
+			}
+			e = edit{off(x.Pos()), off(x.End()), fmt.Sprintf("verifOvf(%q, %s, %s)", x.Op.String(), txt(x.X), txt(x.Y))}
+		case *ast.AssignStmt:
+			op := map[token.Token]string{token.ADD_ASSIGN: "+", token.SUB_ASSIGN: "-", token.MUL_ASSIGN: "*"}[x.Tok]
+			if op == "" || len(x.Lhs) != 1 {
+				continue
+			}
+			e = edit{off(x.Pos()), off(x.End()), fmt.Sprintf("%s = verifOvf(%q, %s, %s)", txt(x.Lhs[0]), op, txt(x.Lhs[0]), txt(x.Rhs[0]))}
+		case *ast.IncDecStmt:
+			op := "+"
+			if x.Tok == token.DEC {
+				op = "-"
+			}
+			e = edit{off(x.Pos()), off(x.End()), fmt.Sprintf("%s = verifOvf(%q, %s, 1)", txt(x.X), op, txt(x.X))}
+		default:
+			continue
+		}
+		byFile[file] = append(byFile[file], e)
+	}
+	if len(byFile) == 0 {
+		return
+	}
+	os.MkdirAll(dir, 0o755)
+	for file, es := range byFile {
+		src, _ := os.ReadFile(file)
+		sort.Slice(es, func(i, j int) bool { return es[i].start > es[j].start })
+		last := len(src) + 1
+		out := string(src)
+		for _, e := range es {
+			if e.end > last {
+				continue // overlapping edit: keep the outer/later one only
+			}
+			out = out[:e.start] + e.text + out[e.end:]
+			last = e.start
+		}
+		dst := filepath.Join(dir, "instr_"+filepath.Base(file))
+		os.WriteFile(dst, []byte(out), 0o644)
+		overlayReplace[file] = dst
+	}
+	helper := filepath.Join(dir, "verif_ovf_helpers.go")
+	os.WriteFile(helper, []byte(strings.Replace(ovfHelpers, "PKG", w.prog.Pkg.Name(), 1)), 0o644)
+	overlayReplace[filepath.Join(w.prog.RepoDir, "zz_verif_ovf_helpers.go")] = helper
+}
+
 func runOverlayTests(w *World, tests []overlayTest, dir string, extraFiles ...string) (map[string]string, string) {
 	os.MkdirAll(dir, 0o755)
 	var b strings.Builder
@@ -321,6 +436,9 @@ func runOverlayTests(w *World, tests []overlayTest, dir string, extraFiles ...st
 		filepath.Join(w.prog.RepoDir, "zz_verif_replay_test.go"): testFile,
 		filepath.Join(w.prog.RepoDir, "zz_spec_verif.go"):        specFile,
 	}}
+	for k, v := range overlayReplace {
+		ov["Replace"][k] = v
+	}
 	for i, ef := range extraFiles {
 		ov["Replace"][filepath.Join(w.prog.RepoDir, fmt.Sprintf("zz_verif_extra%d_test.go", i))] = ef
 	}
@@ -342,6 +460,10 @@ func runOverlayTests(w *World, tests []overlayTest, dir string, extraFiles ...st
 			f := strings.Fields(l)
 			if len(f) >= 3 {
 				res[f[1]] = f[2]
+				if f[2] == "panic" && strings.Contains(l, "VERIF-OVERFLOW") {
+					res[f[1]] = "overflow"
+					res[f[1]+"#detail"] = strings.Join(f[3:], " ")
+				}
 			}
 		}
 	}
